@@ -19,8 +19,19 @@ for f in sorted(glob.glob(os.path.join(V, "seeded", "*", "meta.json"))):
         verdict = ", ".join(parts)
     else:
         verdict = "**not caught** by " + ", ".join(c["check"] for c in m["checks"])
-    rows.append("| %s | %s | %s |" % (d, txt, verdict))
-tab = "| seed | what it changes / needs (from the seeder's notes) | caught by |\n|---|---|---|\n" + "\n".join(rows)
+    sw = os.path.join(os.path.dirname(f), "sweep.json")
+    own = ""
+    if os.path.exists(sw):
+        try:
+            w = json.load(open(sw))
+            own = {1: "caught", 0: "NOT caught", -1: "n/a (superseded by a fix)"}.get(w["exit"], str(w["exit"])) + " @" + w["head"]
+        except Exception:
+            own = "?"
+    if m.get("applies_to_head") is False:
+        verdict += "; " + m.get("note_on_head", "")
+    rows.append("| %s | %s | %s | %s |" % (d, txt, verdict, own))
+tab = ("| seed | what it changes / needs (from the seeder's notes) | caught by (when tools/seedtest.sh was last run for it) | own check, final sweep |\n"
+       "|---|---|---|---|\n" + "\n".join(rows))
 p = os.path.join(V, "DESIGN.md")
 s = open(p).read()
 a, b = "<!-- SEEDTABLE BEGIN -->", "<!-- SEEDTABLE END -->"
